@@ -13,7 +13,9 @@
 (*   ivLeft TRUE : i CMP n      FALSE: n CMP i                               *)
 (*   step   non-zero integer added to i each iteration                       *)
 (*   extra  "none" | "cont" (body: if i%3 == 0 { continue }) |               *)
-(*          "condupd" (the update sits in both arms of an if)                *)
+(*          "condupd" (the update sits in both arms of an if) |              *)
+(*          "revsub" (the update is i = step - i: NOT an arithmetic          *)
+(*          progression; an analysis that says it is one is wrong)           *)
 (*   width  0 = int (no wrap-around in range) | 8 = uint8 (mod 256)          *)
 (* and arguments a (start) and n (limit).  Variables of the loop:            *)
 (*   i  the loop variable,  s  an accumulator (s += 2*i + 1 in the body).    *)
@@ -28,7 +30,7 @@ CONSTANTS MaxIter, Steps, Starts, Limits, Widths, Export
 
 Cmps == {"<", "<=", ">", ">=", "!="}
 Shapes == [pos : {"top", "bottom"}, cmp : Cmps, stay : BOOLEAN, ivLeft : BOOLEAN, step : Steps,
-           extra : {"none", "cont", "condupd"}, width : Widths]
+           extra : {"none", "cont", "condupd", "revsub"}, width : Widths]
 
 VARIABLES sh, a, n, pc, i, s, hdr, iters
 vars == <<sh, a, n, pc, i, s, hdr, iters>>
@@ -43,6 +45,7 @@ Test(x) == LET c == IF sh.ivLeft THEN CmpOp(sh.cmp, x, n) ELSE CmpOp(sh.cmp, n, 
 Valid(shape, st, lim) ==
   /\ (shape.width = 8 => (st \in 0..255 /\ lim \in 0..255))
   /\ (shape.extra = "cont" => shape.pos = "top")      \* `continue` is generated for the for-clause form only
+  /\ (shape.extra = "revsub" => shape.step > 0 /\ shape.pos = "top")
 
 Init == /\ sh \in Shapes /\ a \in Starts /\ n \in Limits /\ Valid(sh, a, n)
         /\ pc = "hdr" /\ i = a /\ s = 0 /\ hdr = <<>> /\ iters = 0
@@ -59,7 +62,7 @@ Body ==
   /\ pc = "body"
   /\ iters' = iters + 1
   /\ s' = IF sh.extra = "cont" /\ i % 3 = 0 THEN s ELSE s + 2 * i + 1
-  /\ i' = Wrap(i + sh.step, sh.width)
+  /\ i' = IF sh.extra = "revsub" THEN Wrap(sh.step - i, sh.width) ELSE Wrap(i + sh.step, sh.width)
   /\ pc' = IF sh.pos = "bottom" THEN (IF Test(i') THEN "hdr" ELSE "exit") ELSE "hdr"
   /\ UNCHANGED <<sh, a, n, hdr>>
 
